@@ -237,7 +237,8 @@ pub fn run(ctx: &mut Ctx) {
     for b in 0..n_base {
         let pin = match b { 0 => 1000, 1 => u32::MAX, 2 => 9999, 3 => 1_000_000_000, _ => pin_of_length(&mut rng, 4 + (b as u32 % 7)) };
         let seed = match b % 5 { 0 => *rng.pick(&fixed_seeds), _ => rng.next() as u32 };
-        let (ss, cs) = (salt(&mut rng, b + 2), salt(&mut rng, b + 5));
+        let (ss, mut cs) = (salt(&mut rng, b + 2), salt(&mut rng, b + 5));
+        if b % 4 == 1 { cs = ss; }                       // the client answers with the salt it was sent
         let h = match catch(|| calculate_hash(pin, seed, &ss, &cs)) { Some(Some(h)) => h, _ => continue };
         emit_verify(ctx, "verify:right-hash", pin, seed, &ss, &cs, &h);
         if quick {
@@ -294,7 +295,8 @@ pub fn run(ctx: &mut Ctx) {
     for k in 0..n {
         let pin = match k % 8 { 0 => pin_of_length(&mut rng, 1 + (k / 8 % 10) as u32), 1 => rng.below(2000) as u32, _ => rng.next() as u32 };
         let seed = match k % 16 { 0 => *rng.pick(&fixed_seeds), 1 => (rng.below(1184) * FACT10).min(u32::MAX as u64) as u32, _ => rng.next() as u32 };
-        let (ss, cs): ([u8; 16], [u8; 16]) = (rng.arr(), rng.arr());
+        let (ss, mut cs): ([u8; 16], [u8; 16]) = (rng.arr(), rng.arr());
+        match k % 64 { 5 => cs = ss, 6 => { cs = ss; cs.reverse(); } 7 => { cs = ss; cs[(k / 64) % 16] ^= 1; } _ => {} }      // related salts
         oracle_hash(ctx, &mut rng, pin, seed, &ss, &cs);
     }
     ctx.notes.push("oracle specification is independent of src/pin.rs: digits by place value, pool.remove(idx) Lehmer decoding, position lookup, sha-1 crate".to_string());
